@@ -1,4 +1,5 @@
 import HsVerif.Model.Rules
+import HsVerif.Props.C04
 import HsVerif.Gen.RulesChained
 import HsVerif.Gen.RulesFast
 import HsVerif.Gen.RulesSimple
@@ -40,7 +41,7 @@ and keeps proving under renamed locals / swapped operands: the proofs split on t
 `omega` decide the regenerated ones. -/
 set_option linter.unusedVariables false
 namespace HsVerif.Props.C04Gen
-open HsVerif.Gen.Methods HsVerif.Model.Rules
+open HsVerif.Gen.Methods HsVerif.Model.Rules HsVerif.Model HsVerif.Spec.Rules HsVerif.Props.C04
 
 /-! ## The model's types as the parameters of the regenerated functions -/
 
@@ -217,5 +218,35 @@ example : (genChainedCommit chain none (some (blk 5))).2.2 = false := by decide
 example : (genChainedCommit chain none (some (blk 2))).2.2 = true := by decide
 /-- a nil proposal block is dereferenced at once -/
 example : (genSimpleVote chain (some genesis) 0 none none).2.2 = false := by decide
+
+/-! ## Property statements carried over to the regenerated code -/
+
+/-- ON THE REGENERATED CODE: whatever chained HotStuff's `CommitRule` (as translated from the Go source of this run)
+returns is the tail of a chain of three blocks, each certified by its successor's certificate, directly linked by
+parent pointers and proposed in consecutive views, headed by the block certified in `b`. -/
+theorem gen_chained_commit_is_chain_tail (s : Store) (bLock b c : Block) (hz : s 0 = none)
+    (h : (genChainedCommit s (some bLock) (some b)).2.1 = some c) :
+    ∃ x y, Chain s true [x, y, c] ∧ justified s b = some x := by
+  rw [gen_chainedCommit_eq_model] at h
+  have := commit_is_chain_tail ⟨.chained, s, bLock⟩ b c hz (by simpa [commitRule] using h)
+  have hk : (Kind.chained != Kind.simple) = true := by decide
+  simpa [hk] using this
+
+theorem gen_fast_commit_is_chain_tail (s : Store) (b c : Block) (hz : s 0 = none)
+    (h : (genFastCommit s (some b)).2.1 = some c) :
+    ∃ y, Chain s true [b, y, c] := by
+  rw [gen_fastCommit_eq_model] at h
+  obtain ⟨x, y, hc, hx⟩ := commit_is_chain_tail ⟨.fast, s, b⟩ b c hz (by simpa [commitRule] using h)
+  have hk : (Kind.fast != Kind.simple) = true := by decide
+  simp only [hk, ↓reduceIte] at hx hc
+  exact ⟨y, hx ▸ hc⟩
+
+theorem gen_simple_commit_is_chain_tail (s : Store) (locked b c : Block) (hz : s 0 = none)
+    (h : (genSimpleCommit s (some locked) (some b)).2.1 = some c) :
+    ∃ x y, Chain s false [x, y, c] ∧ justified s b = some x := by
+  rw [gen_simpleCommit_eq_model] at h
+  have := commit_is_chain_tail ⟨.simple, s, locked⟩ b c hz (by simpa [commitRule] using h)
+  have hk : (Kind.simple != Kind.simple) = false := by decide
+  simpa [hk] using this
 
 end HsVerif.Props.C04Gen
